@@ -12,15 +12,19 @@
       node.introspectable`), and a nested callable is only claimed when its parent is not
       skipped (the pass does not visit the children of a skipped node; girparser.c drops the
       whole subtree of an element marked introspectable="0");
-    * C05_exotic_partial / C05_bindable: the clauses that `_introspectable_param_analysis`
-      decides (varargs, missing transfer / scope / element type) are proved for parameters and
-      return values that are NOT marked (skip): the pass returns early on a skipped value.
-      For varargs this is a genuine hole of the unchanged code (`@...: (skip)` keeps a varargs
-      function introspectable): witness `C05_exotic_counterexample`, full statement kept as
-      `C05_exotic_full`.
-    * C05_fields_props claims typed fields and properties; a field that holds an anonymous
-      callback follows the callback's `introspectable` flag only, which misses a callback that
-      was marked through skip propagation (`C05_anon_field_counterexample`).
+    * C05_bindable: the clauses that `_introspectable_param_analysis` decides (missing transfer /
+      scope / element type, callback return values) are proved for parameters and return values
+      that are NOT marked (skip): the pass returns early on a skipped value and the property's
+      oracle exempts skip="1" values from the three "states ..." clauses as well.  The type
+      clauses (unresolved, varargs, va_list, long long, long double) hold for EVERY value,
+      skipped or not, at any depth: C05_exotic (full statement; since commit 1110ea5
+      `_type_is_introspectable` refuses varargs, before that `@...: (skip)` kept a varargs
+      function introspectable).
+    * C05_fields_props claims typed fields, properties and fields holding an anonymous callback
+      (since commit efccda4 such a field follows the callback's `introspectable` AND `skip`).
+      Hypothesis for the last conjunct of the third clause only: the anonymous callback is not an
+      ast.Signal (`isSignal = false`; it is an ast.Callback by construction of the AST) — pass 3
+      re-analyses signals after it looked at the fields.
     * AST invariants assumed from the earlier passes: none in the theorems (the model takes the
       looked-up target kind of a reference into an included namespace as data: `Ty.ext`).
 -/
@@ -118,17 +122,25 @@ theorem C05_closure {ns ns1 : NS} {s : St} {k : Nat} (h : validate ns = some (ns
 
 /-- Fields and properties are decided after the fixed point, so the same holds for them: a typed
     field / a property of a node that is not skipped, still introspectable after `validate`, only
-    refers to acceptable leaves w.r.t. the FINAL flags. -/
+    refers to acceptable leaves w.r.t. the FINAL flags.  A field that holds an anonymous callback
+    and is still introspectable: the callback is not skipped (so it is not written
+    introspectable="0" because of `_propagate_callable_skips`), its signature only refers to
+    acceptable leaves, and it is itself still introspectable. -/
 theorem C05_fields_props {ns ns1 : NS} {s : St} {k : Nat} (h : validate ns = some (ns1, s, k)) :
     (∀ i t n f ty, ns1.tops[i]? = some t → t.skip = false → t.fields[n]? = some f →
         f.anon = none → f.ty = some ty → (s.ff.getD i []).getD n false = true →
         ∀ l ∈ leaves ty, LeafOK ns1 s.tf l)
     ∧ (∀ i t n p, ns1.tops[i]? = some t → t.skip = false → t.props[n]? = some p →
-        (s.pf.getD i []).getD n false = true → ∀ l ∈ leaves p.ty, LeafOK ns1 s.tf l) := by
-  obtain ⟨_, s2, _, rfl⟩ := validate_some h
+        (s.pf.getD i []).getD n false = true → ∀ l ∈ leaves p.ty, LeafOK ns1 s.tf l)
+    ∧ (∀ i t n f j sub, ns1.tops[i]? = some t → t.skip = false → t.fields[n]? = some f →
+        f.anon = some j → t.subs[j]? = some sub → (s.ff.getD i []).getD n false = true →
+        sub.skip = false ∧ SigClosed ns1 s.tf sub.sig
+        ∧ (sub.sig.isSignal = false → (s.sf.getD i []).getD j false = true)) := by
+  obtain ⟨_, s2, hl, rfl⟩ := validate_some h
+  have hfix := loop_fixed ns1 _ _ s2 k hl
   have htf : (pass3Walk ns1 (propWalk ns1 s2)).tf = s2.tf := by rw [pass3Walk_tf, propWalk_tf]
   rw [htf]
-  refine ⟨?_, ?_⟩
+  refine ⟨?_, ?_, ?_⟩
   · intro i t n f ty ht hs hf hanon hty hflag
     cases hb : t.body with
     | compound b fs ps subs =>
@@ -142,6 +154,24 @@ theorem C05_fields_props {ns ns1 : NS} {s : St} {k : Nat} (h : validate ns = som
   · intro i t n p ht hs hp hflag
     rw [pass3Walk_pf] at hflag
     exact leavesOK_of_tyIntro (propWalk_prop s2 ht hs hp hflag)
+  · intro i t n f j sub ht hs hf hanon hsub hflag
+    have hlt : i < ns1.tops.length := by
+      rcases Nat.lt_or_ge i ns1.tops.length with h | h
+      · exact h
+      · rw [List.getElem?_eq_none h] at ht; cases ht
+    cases hb : t.body with
+    | compound b fs ps subs =>
+      have hf' : fs[n]? = some f := by simpa [Top.fields, hb] using hf
+      have hsub' : subs[j]? = some sub := by simpa [Top.subs, hb] using hsub
+      obtain ⟨hrow, hsk⟩ := pass3Walk_anon (propWalk ns1 s2) ht hs hb hf' hanon hflag
+      have hskip : sub.skip = false := by simpa [subSkipped, hsub'] using hsk
+      have hrow2 : (s2.sf.getD i []).getD j false = true := ((propWalk_le ns1 s2).2.1.2 i).2 j hrow
+      have hstep := (round_fixed_steps ns1 s2 hfix i hlt).2
+      exact ⟨hskip, sigClosed_of_callBad (callStep_fixed_sub hstep ht hs hb hsub' hskip hrow2),
+        fun hsig => pass3Walk_sf_keep (propWalk ns1 s2) ht hb hsub' hsig hrow⟩
+    | alias _ => simp [Top.fields, hb] at hf
+    | callable _ => simp [Top.fields, hb] at hf
+    | other => simp [Top.fields, hb] at hf
 
 /-! ### exotic and unbindable values -/
 
@@ -175,36 +205,28 @@ theorem C05_bindable {ns ns1 : NS} {s : St} {k : Nat} (h : validate ns = some (n
   · obtain ⟨a, b, c, _, e, f⟩ := paramBad_false hb.2 hskip
     exact ⟨a, b, c, e rfl, fun hn => f (fun _ => hn)⟩
 
-/-- the full statement for exotic values: in a callable that is still introspectable NO parameter
-    or return type is unresolved, varargs, va_list, long long, unsigned long long or long double
-    (at any depth of arrays / lists / maps).  It does NOT hold for the unchanged code
-    (`C05_exotic_counterexample`). -/
-def C05_exotic_full : Prop :=
-  ∀ (ns ns1 : NS) (s : St) (k : Nat), validate ns = some (ns1, s, k) →
-    ∀ i t sig, ns1.tops[i]? = some t → t.body = .callable sig → t.skip = false →
-      s.tf.getD i false = true →
-      ∀ p, p ∈ sig.params ∨ p = sig.ret → ∀ l ∈ leaves p.ty,
-        l ≠ .unresolved ∧ l ≠ .varargs ∧ l ≠ .fund vaList ∧ ∀ n ∈ bigTypes, l ≠ .fund n
-
-/-- Proved part: unresolved, va_list, long long, unsigned long long, long double are NEVER left
-    in an introspectable callable (skipped value or not, at any depth); varargs is excluded for
-    every value that is not marked (skip). -/
-theorem C05_exotic_partial {ns ns1 : NS} {s : St} {k : Nat} (h : validate ns = some (ns1, s, k))
-    {i : Nat} {t : Top} {sig : Sig} (ht : ns1.tops[i]? = some t) (hb : t.body = .callable sig)
-    (hs : t.skip = false) (hf : s.tf.getD i false = true) :
-    (∀ p, p ∈ sig.params ∨ p = sig.ret → ∀ l ∈ leaves p.ty,
-        l ≠ .unresolved ∧ l ≠ .fund vaList ∧ ∀ n ∈ bigTypes, l ≠ .fund n)
-    ∧ (∀ p, p ∈ sig.params ∨ p = sig.ret → p.skip = false → p.ty ≠ .varargs) := by
-  refine ⟨fun p hp l hl => ?_, fun p hp hskip => ?_⟩
-  · have hok := (C05_closure h).2.1 i t sig ht hb hs hf p hp l hl
-    refine ⟨?_, ?_, ?_⟩
-    · rintro rfl; exact hok
-    · rintro rfl; exact hok.1 rfl
-    · rintro n hn rfl; exact hok.2 hn
-  · have hbind := C05_bindable h (sig := sig) (Or.inl ⟨i, t, ht, hb, hs, hf⟩)
-    rcases hp with hp | rfl
-    · exact (hbind.1 p hp hskip).2.1
-    · exact (hbind.2 hskip).2.1
+/-- The full statement for exotic values: in a callable (top-level, or nested in a node that is
+    not skipped) that is still introspectable after `validate`, NO parameter or return type —
+    marked (skip) or not — is unresolved, varargs, va_list, long long, unsigned long long or long
+    double, at any depth of arrays / lists / maps. -/
+theorem C05_exotic {ns ns1 : NS} {s : St} {k : Nat} (h : validate ns = some (ns1, s, k))
+    {sig : Sig}
+    (hsig : (∃ i t, ns1.tops[i]? = some t ∧ t.body = .callable sig ∧ t.skip = false ∧ s.tf.getD i false = true)
+      ∨ (∃ i t j sub, ns1.tops[i]? = some t ∧ t.skip = false ∧ t.subs[j]? = some sub ∧ sub.skip = false ∧
+          (s.sf.getD i []).getD j false = true ∧ sub.sig = sig)) :
+    ∀ p, p ∈ sig.params ∨ p = sig.ret → ∀ l ∈ leaves p.ty,
+      l ≠ .unresolved ∧ l ≠ .varargs ∧ l ≠ .fund vaList ∧ ∀ n ∈ bigTypes, l ≠ .fund n := by
+  have hcl : SigClosed ns1 s.tf sig := by
+    rcases hsig with ⟨i, t, ht, hb, hs, hf⟩ | ⟨i, t, j, sub, ht, hs, hsub, hskip, hf, rfl⟩
+    · exact (C05_closure h).2.1 i t sig ht hb hs hf
+    · exact (C05_closure h).2.2 i t j sub ht hs hsub hskip hf
+  intro p hp l hl
+  have hok := hcl p hp l hl
+  refine ⟨?_, ?_, ?_, ?_⟩
+  · rintro rfl; exact hok
+  · rintro rfl; exact hok
+  · rintro rfl; exact hok.1 rfl
+  · rintro n hn rfl; exact hok.2 hn
 
 /-- `void foo_v (int x, ...)` documented with `@...: (skip)` -/
 def varargsSkipWitness : NS :=
@@ -214,21 +236,15 @@ def varargsSkipWitness : NS :=
                                               { ty := .varargs, skip := true }],
                                    ret := { ty := .fund "none".toList } } }] }
 
-/-- The unchanged pass leaves a varargs function introspectable when the `...` parameter is
-    marked (skip): `_introspectable_param_analysis` returns early on a skipped value and
-    `_type_is_introspectable` accepts the fundamental '<varargs>'.  (Replayed on the real
-    pipeline by the harness: known key `skipped-varargs-parameter`.) -/
-theorem C05_exotic_counterexample :
-    (validate varargsSkipWitness).map (fun r => r.2.1.tf) = some [true] := by
+/-- Regression witness of commit 1110ea5: `_introspectable_param_analysis` returns early on the
+    skipped `...`, but `_type_is_introspectable` now refuses it in the callable analysis — the
+    function is demoted (before the fix it stayed introspectable and was written with
+    `<varargs/>`). -/
+theorem C05_varargs_skip_witness :
+    (validate varargsSkipWitness).map (fun r => (r.2.1.tf, closedB r.1 r.2.1)) = some ([false], true)
+    ∧ sigBad varargsSkipWitness { params := [{ ty := .fund "gint".toList }, { ty := .varargs, skip := true }],
+                                  ret := { ty := .fund "none".toList } } = false := by
   decide
-
-theorem C05_exotic_full_fails : ¬ C05_exotic_full := by
-  intro hfull
-  have hv : validate varargsSkipWitness =
-      some (varargsSkipWitness, { tf := [true], sf := [[]], ff := [[]], pf := [[]] }, 1) := by decide
-  have := hfull _ _ _ _ hv 0 _ _ rfl rfl rfl rfl
-    { ty := .varargs, skip := true } (Or.inl (by simp)) .varargs (by simp [leaves])
-  exact this.2.1 rfl
 
 /-- `typedef void (*FooCs)(int); /* (skip) */  struct FooR { void (*f)(FooCs cb); };` -/
 def skipFieldWitness : NS :=
@@ -244,16 +260,14 @@ def skipFieldWitness : NS :=
              sig := { params := [{ ty := .ref "Cs".toList }], ret := { ty := .fund "none".toList },
                       isCallback := true } }] }] }
 
-/-- A second hole of the unchanged pass (anonymous-callback fields, which `C05_fields_props` does
-    not claim): `_propagate_callable_skips` marks the field's anonymous callback as skipped
-    (written introspectable="0"), its `introspectable` flag stays set because a skipped node is
-    never analysed, and `_introspectable_pass3` only looks at that flag — the field stays
-    introspectable.  (Replayed on the real pipeline: known key
-    `gen:field-callback-non-introspectable:skip-propagated-callback`.) -/
-theorem C05_anon_field_counterexample :
+/-- Regression witness of commit efccda4: `_propagate_callable_skips` marks the field's anonymous
+    callback as skipped (written introspectable="0"); its `introspectable` flag stays set because
+    a skipped node is never analysed; `_introspectable_pass3` now looks at `skip` as well and
+    demotes the field (before the fix the field stayed introspectable). -/
+theorem C05_anon_field_witness :
     (validate skipFieldWitness).map (fun r =>
-      (r.1.tops.map (fun t => t.subs.map (·.skip)), r.2.1.sf, r.2.1.ff)) =
-      some ([[], [true]], [[], [true]], [[], [true]]) := by
+      (r.1.tops.map (fun t => t.subs.map (·.skip)), r.2.1.sf, r.2.1.ff, closedB r.1 r.2.1)) =
+      some ([[], [true]], [[], [true]], [[], [false]], true) := by
   decide
 
 /-! ### the regression witness of commit 51936cf -/
